@@ -417,3 +417,74 @@ package cases
 //@ type reg guarded_by mu: m
 //@ func (*reg).snapshot
 //@   property ENGINE
+
+//@ func untaggedLies
+//@   ensures result == x + 1
+//@ func reliesOnUntagged
+//@   property ENGINE
+//@   ensures result == x + 1
+
+//@ func cellThroughCall
+//@   property ENGINE
+//@   ensures wrong: result == 1
+//@ func sliceThroughCall
+//@   property ENGINE
+//@   ensures wrong: result == 0
+//@ func mapThroughCall
+//@   property ENGINE
+//@   ensures wrong: result == 0
+//@ func deepThroughCall
+//@   property ENGINE
+//@   requires c != nil && c.next != nil && c.next.next != nil
+//@   ensures wrong: result == 1
+//@ func viaGo
+//@   property ENGINE
+//@   requires p != nil
+//@   ensures wrong: result == 1
+//@ func viaGlobalFunc
+//@   property ENGINE
+//@   requires p != nil && hook != nil
+//@   ensures wrong: result == 1
+
+//@ func methodValue
+//@   property ENGINE
+//@   requires p != nil
+//@   ensures wrong: result == 1
+//@ func methodExpr
+//@   property ENGINE
+//@   requires p != nil
+//@   ensures wrong: result == 1
+//@ func viaField
+//@   property ENGINE
+//@   requires w != nil && b != nil && !isNil(w.s)
+//@   ensures wrong: result == 1
+//@ func variadic
+//@   property ENGINE
+//@   ensures wrong: result == 0
+//@ func copyBuiltin
+//@   property ENGINE
+//@   ensures wrong: result == 1
+//@ func appendGrow
+//@   property ENGINE
+//@   ensures wrong: result == 42
+
+//@ func promotedPtr
+//@   property ENGINE
+//@   requires d != nil && d.base != nil
+//@   ensures wrong: result == 1
+//@ func promotedVal
+//@   property ENGINE
+//@   requires d != nil
+//@   ensures wrong: result == 1
+//@ func embeddedAlias
+//@   property ENGINE
+//@   requires d != nil && d.base != nil && b != nil
+//@   ensures wrong: result == 1
+//@ func typeSwitch
+//@   property ENGINE
+//@   ensures wrong: result >= -1
+//@   ensures right: result >= -2 || typeIs(v, "int")
+//@ func shadow
+//@   property ENGINE
+//@   ensures right: result == x
+//@   ensures wrong: x > 0 ==> result == x + 1
